@@ -195,3 +195,25 @@ package store
 //@   requires a != nil
 //@   ensures [limit-installed] result == a && a.perAlertLimit == lim && a.limits != nil && fresh(a.limits) && len(a.limits) == 0
 //@   assigns a.perAlertLimit, a.limits
+
+// ---- C18 / C03 / C05: one garbage-collection pass: stale limit buckets first, then the resolved alerts; the callback is
+// told exactly the alerts that were removed, and only when there are any; what was removed is what is returned.
+//@ func (*Alerts).GC
+//@   props C18 C03 C13
+//@   nosafe
+//@   at call Alerts).gcAlerts assert [stale-buckets-are-dropped-before-alerts-are-collected] arg0 == a && count("Alerts).gcLimitBuckets") == 1
+//@   at call dynamic:field:gcCallback assert [the-callback-gets-exactly-what-was-removed] arg0 == ret("Alerts).gcAlerts") && len(arg0) > 0
+//@   ensures [both-sweeps-run-once] count("Alerts).gcLimitBuckets") == 1 && count("Alerts).gcAlerts") == 1
+//@   ensures [callback-told-iff-something-collected] called("dynamic:field:gcCallback") == (len(ret("Alerts).gcAlerts")) > 0)
+//@   ensures [what-was-removed-is-returned] result == ret("Alerts).gcAlerts")
+//@   noeffect Alerts).gcAlerts Alerts).gcLimitBuckets dynamic:field:gcCallback
+
+// the periodic collector: one pass per tick, until the context ends - and only then
+//@ func (*Alerts).Run
+//@   props C18 C03
+//@   abstract
+//@   nosafe
+//@   ensures [stops-only-when-told] called("select") && ret("select") == 0
+//@   ensures [one-pass-per-tick] count("Alerts).GC") == count("select") - 1
+//@   loop 1 invariant count("Alerts).GC") == count("select")
+//@   noeffect Alerts).GC
